@@ -52,23 +52,23 @@ local macro "tail_cases " f:term:max v:term:max : tactic => `(tactic|
       | tupleS _ => rfl))
 
 /-- a two-token key `datum.callable` -/
-theorem parse_front2 (fuel : Nat) (key : String) (val : PyVal) (t0 last clsName : String)
+theorem parse_front2 (fuel : Nat) (key : String) (val : PyVal) (t0 last clsName call : String)
     (cls : CClass) (info : CondClassInfo) (ctor : Ctor) (inst : Bool)
     (hop : lookupStr key binaryOps = none)
     (htoks : (splitDot key).mapM pyLower = .ok [t0, last])
     (hdt : lookupStr t0 conditionDatumTypes = some clsName)
     (hpp : preProcLookup.any (fun p => p.1 == last) = false)
     (hbase : CClass.all.find? (fun c => c.name == clsName) = some cls)
-    (hcall : lookupStr last callableLookup = none)
-    (hinst : (last == "is_instance" || last == "keys_is_instance") = inst)
+    (hcall : (lookupStr last callableLookup).getD last = call)
+    (hinst : (call == "is_instance" || call == "keys_is_instance") = inst)
     (hinfo : cls.info = .ok info)
     (hflag : callableFromCtorTables = true)
-    (hctor : (ctorsOf info).find? (fun c => c.name.toList.map Char.toLower == last.toList) = some ctor) :
+    (hctor : (ctorsOf info).find? (fun c => c.name.toList.map Char.toLower == call.toList) = some ctor) :
     parseCond (fuel + 1) (.dict [(.str key, val)]) =
       (do let v ← (if inst then convTypes val else pure val); parseTail fuel cls ctor v) := by
   subst hinst
   rw [parseCond.eq_2]
-  cases hi : (last == "is_instance" || last == "keys_is_instance")
+  cases hi : (call == "is_instance" || call == "keys_is_instance")
   · simp [hop, htoks, hdt, hpp, hbase, hcall, hi, hinfo, hflag, hctor, PyVal.truthy,
       bind, Except.bind, pure, Except.pure, parseTail]
     tail_cases fuel val
@@ -81,7 +81,7 @@ theorem parse_front2 (fuel : Nat) (key : String) (val : PyVal) (t0 last clsName 
       tail_cases fuel v0
 
 /-- a three-token key `datum.pre.callable` -/
-theorem parse_front3 (fuel : Nat) (key : String) (val : PyVal) (t0 tok last clsName pre : String)
+theorem parse_front3 (fuel : Nat) (key : String) (val : PyVal) (t0 tok last clsName pre call : String)
     (base cls : CClass) (cp : String × String × String) (info : CondClassInfo) (ctor : Ctor) (dt inst : Bool)
     (hop : lookupStr key binaryOps = none)
     (htoks : (splitDot key).mapM pyLower = .ok [t0, tok, last])
@@ -91,18 +91,18 @@ theorem parse_front3 (fuel : Nat) (key : String) (val : PyVal) (t0 tok last clsN
     (hdtype : (pre == "dtype") = dt)
     (hcp : classProps.find? (fun cp => cp.1 == base.name && cp.2.1 == pre) = some cp)
     (hcls : CClass.all.find? (fun c => c.name == cp.2.2) = some cls)
-    (hcall : lookupStr last callableLookup = none)
-    (hinst : (last == "is_instance" || last == "keys_is_instance") = inst)
+    (hcall : (lookupStr last callableLookup).getD last = call)
+    (hinst : (call == "is_instance" || call == "keys_is_instance") = inst)
     (hinfo : cls.info = .ok info)
     (hflag : callableFromCtorTables = true)
-    (hctor : (ctorsOf info).find? (fun c => c.name.toList.map Char.toLower == last.toList) = some ctor) :
+    (hctor : (ctorsOf info).find? (fun c => c.name.toList.map Char.toLower == call.toList) = some ctor) :
     parseCond (fuel + 1) (.dict [(.str key, val)]) =
       (do let v1 ← (if dt then convTypes val else pure val)
           let v2 ← (if inst then convTypes v1 else pure v1)
           parseTail fuel cls ctor v2) := by
   subst hinst hdtype
   rw [parseCond.eq_2]
-  cases hi : (last == "is_instance" || last == "keys_is_instance") <;>
+  cases hi : (call == "is_instance" || call == "keys_is_instance") <;>
   cases hd : (pre == "dtype")
   · simp [hop, htoks, hdt, hbase, hpre, hd, hcp, hcls, hcall, hi, hinfo, hflag, hctor, PyVal.truthy,
       bind, Except.bind, pure, Except.pure, parseTail]
